@@ -182,6 +182,20 @@ def wl_explicit_zero_min(ctx, config):
         ctx.check(e is not None, "model:explicit_zero_min_rejected_by_model", "mant=%d" % mant, config)
         vcase(ctx, config, pr["C"], Co, H, Ho, pr["proof"] + b'\x00', extra, "explicit_zero_min:trailing_byte")
 
+def wl_partial_sum_infinity(ctx, config):
+    """transmitted digit commitments chosen so that their running sum passes through the point at infinity (C1 = -C0: both digits 0,
+    opposite blinding factors): a perfectly valid proof that a verifier must accept"""
+    rng = ctx.rng
+    for it in range(ctx.n(16, 300)):
+        mant = rng.choice((5, 6, 7, 8)); v = (rng.randrange(1 << (mant - 4)) << 4); b0 = rng.randrange(1, n)
+        H, Ho = gen_pair(ctx, config, rng); extra = pools.rbytes(rng, rng.choice((0, 4)))
+        pr = rp.make_proof(v, rng.randrange(1, n), H, 0, mant, 0, extra, rng, small=False, bl_override={0: (lambda dg, w, b0=b0: b0), 1: (lambda dg, w, b0=b0: n - b0)})
+        if pr is None: continue
+        Co = commit_obj(ctx, config, pr["C"])
+        if Co is None: continue
+        e = vcase(ctx, config, pr["C"], Co, H, Ho, pr["proof"], extra, "partial_sum_of_digit_commitments_infinity", also_info=True)
+        ctx.check(e is not None, "model:partial_sum_infinity_rejected_by_model", "mant=%d v=%d" % (mant, v), config)
+
 def wl_smallx(ctx, config):
     """digit commitment with x0 < 2^32+977 under a generator chosen by the prover: canonical encoding must verify, x0 + p must not"""
     rng = ctx.rng
@@ -236,6 +250,7 @@ def run(ctx):
     for i, config in enumerate(ctx.configs):
         wl_smallx(ctx, config)
         wl_explicit_zero_min(ctx, config)
+        wl_partial_sum_infinity(ctx, config)
         wl_degenerate_members(ctx, config)
         if ctx.quick and i > 0: continue          # quick: the 32-bit-limb build only gets the coordinate-range workload
         wl_refprover(ctx, config)
